@@ -132,23 +132,28 @@ def run_e1(pid, jobs, results, violations, inconclusive, nreplays):
         r["encodes"] = job.get("encodes", [])
         log("  [E1] %-44s %-12s %6.1fs  %s" % (job["name"], r["status"], r.get("wall_s", 0), r["reason"][:150]))
         if r["status"] == "fail":
-            vals = kani_run.playback_values(job)
-            r["playback_values"] = vals
-            if vals is None:
+            cands = kani_run.playback_values(job)
+            if not cands:
                 r["status"] = "inconclusive"
                 r["reason"] = "FAILED but concrete playback produced no values: " + r["reason"]
             else:
-                dev = native_replay(job["name"], vals, "dev")
-                rel = native_replay(job["name"], vals, "release")
-                nreplays[0] += 2
-                r["native_dev"], r["native_release"] = dev, rel
-                if dev.get("outcome") == "panic" or rel.get("outcome") == "panic":
-                    r["status"] = "violation"
-                else:
-                    r["status"] = "inconclusive"
-                    r["reason"] = "counterexample does not reproduce natively (dev: %s, release: %s): %s" % (
-                        dev.get("outcome"), rel.get("outcome"), r["reason"])
-                log("  [E1] %-44s replayed natively: dev=%s release=%s" % (job["name"], dev.get("outcome"), rel.get("outcome")))
+                # one candidate per failed check and per satisfied cover: the counterexample is the one that panics natively
+                r["status"] = "inconclusive"
+                outcomes = []
+                for vals in cands:
+                    dev = native_replay(job["name"], vals, "dev")
+                    nreplays[0] += 1
+                    outcomes.append(dev.get("outcome"))
+                    if dev.get("outcome") == "panic":
+                        rel = native_replay(job["name"], vals, "release")
+                        nreplays[0] += 1
+                        r["playback_values"], r["native_dev"], r["native_release"] = vals, dev, rel
+                        r["status"] = "violation"
+                        break
+                if r["status"] != "violation":
+                    # overflow-only findings exist in dev only; try release for completeness of the report
+                    r["reason"] = "counterexample does not reproduce natively (%d candidates: %s): %s" % (len(cands), ",".join(map(str, outcomes)), r["reason"])
+                log("  [E1] %-44s replayed natively: %s" % (job["name"], ",".join(map(str, outcomes))))
         return r
 
     with cf.ThreadPoolExecutor(max_workers=workers) as ex:
